@@ -49,7 +49,8 @@ func (c vxC18CfgCase) String() string {
 
 // "unused-cmd-sensor": the only cmd entry is a sensor that no curve references (the daemon still polls it);
 // "second-cmd-sensor" / "second-cmd-fan": the cmd entry is not the first entry of its list
-var vxC18Variants = []string{"none", "cmd-sensor", "cmd-fan", "both", "unused-cmd-sensor", "second-cmd-sensor", "second-cmd-fan"}
+// "cmd-sensor-no-fans": a monitoring-only configuration (cmd sensor, curve, no fan entry at all)
+var vxC18Variants = []string{"none", "cmd-sensor", "cmd-fan", "both", "unused-cmd-sensor", "second-cmd-sensor", "second-cmd-fan", "cmd-sensor-no-fans"}
 
 func vxC18Yaml(variant, dir string) string {
 	fileSensor := "    file:\n      path: " + filepath.Join(dir, "temp_input") + "\n"
@@ -67,6 +68,9 @@ func vxC18Yaml(variant, dir string) string {
 	case "both":
 		sensors = "  - id: s1\n" + cmdSensor
 		fans = "  - id: f1\n    curve: c1\n    neverStop: false\n" + cmdFan
+	case "cmd-sensor-no-fans":
+		sensors = "  - id: s1\n" + cmdSensor
+		return "dbPath: " + filepath.Join(dir, "fan2go.db") + "\n" + "sensors:\n" + sensors + "curves:\n" + curves
 	case "unused-cmd-sensor":
 		sensors += "  - id: s2\n" + cmdSensor
 	case "second-cmd-sensor":
@@ -101,9 +105,9 @@ func vxC18Load(variant, dir, path string) error {
 			nCmdFans++
 		}
 	}
-	wantSensor := variant == "cmd-sensor" || variant == "both" || variant == "unused-cmd-sensor" || variant == "second-cmd-sensor"
+	wantSensor := variant == "cmd-sensor" || variant == "both" || variant == "unused-cmd-sensor" || variant == "second-cmd-sensor" || variant == "cmd-sensor-no-fans"
 	wantFan := variant == "cmd-fan" || variant == "both" || variant == "second-cmd-fan"
-	if (nCmdSensors > 0) != wantSensor || (nCmdFans > 0) != wantFan || len(CurrentConfig.Sensors) == 0 || len(CurrentConfig.Fans) == 0 {
+	if (nCmdSensors > 0) != wantSensor || (nCmdFans > 0) != wantFan || len(CurrentConfig.Sensors) == 0 || (len(CurrentConfig.Fans) == 0) != (variant == "cmd-sensor-no-fans") {
 		return fmt.Errorf("variant %s: loaded %d sensors (%d cmd), %d curves, %d fans (%d cmd)", variant, len(CurrentConfig.Sensors), nCmdSensors, len(CurrentConfig.Curves), len(CurrentConfig.Fans), nCmdFans)
 	}
 	return nil
